@@ -376,6 +376,82 @@ def h_call_async(t, part):
     return None
 
 
+# ---- a callback that uses the server again (chained acknowledgements, disconnect from a callback) ---------------
+class Deadlocked(Exception):
+    pass
+
+
+def h_chain(t, part):
+    import signal
+    asyncio_ = part['async']
+    with notrace():
+        w, live = build(asyncio_)
+    ns = NSS[t.choice(2)]
+    sid, other = live[('e0', ns)], live[('e1', ns)]
+    action = part['action']
+    x = t.int(-2, 2)
+    fired = []
+
+    def then(a):
+        fired.append(('cb1', a))
+        if action == 'emit-same':
+            return w.s.emit('q2', 1, to=sid, namespace=ns, callback=lambda *b: fired.append(('cb2', b)))
+        if action == 'emit-other':
+            return w.s.emit('q2', 1, to=other, namespace=ns, callback=lambda *b: fired.append(('cb2', b)))
+        return w.s.disconnect(sid, namespace=ns)
+    if asyncio_:
+        async def cb1(*a):
+            await then(a)
+    else:
+        def cb1(*a):
+            then(a)
+    w.call(w.s.emit('q', 0, to=sid, namespace=ns, callback=cb1))
+    pk = [p for p in w.take('e0') if not isinstance(p, tuple)]
+    if len(pk) != 1 or pk[0].id is None:
+        return Fail('ack:emit-shape', repr([worlds.pk(p) for p in pk]))
+
+    def alarm(signum, frame):
+        raise Deadlocked()
+    try:
+        old = signal.signal(signal.SIGALRM, alarm)
+        signal.setitimer(signal.ITIMER_REAL, 10)
+    except ValueError:
+        old = None
+    try:
+        ncont = len(w.eio.contained)
+        try:
+            # the acknowledgement arrives: the callback runs on the thread / task that handles the packet and calls back
+            # into the server
+            w.send('e0', w.P(packet.ACK, data=[x], namespace=ns, id=pk[0].id))
+            w.finish()
+        except Deadlocked:
+            return Fail('ack:callback-using-the-server-blocks', 'the callback of an emit (%s from inside it) never returned' % action)
+        if len(w.eio.contained) != ncont and isinstance(w.eio.contained[-1][1], Deadlocked):
+            return Fail('ack:callback-using-the-server-blocks', 'the callback of an emit (%s from inside it) never returned' % action)
+        if len(w.eio.contained) != ncont:
+            return Fail('ack:callback-using-the-server-raises:%s' % type(w.eio.contained[-1][1]).__name__, repr(w.eio.contained[-1]))
+        t.reached('chained')
+        if not (fired == [('cb1', (x,))]):
+            return Fail('ack:callback-args', repr(fired))
+        if action == 'disconnect':
+            if w.s.manager.is_connected(sid, ns) or sid in w.s.manager.callbacks:
+                return Fail('ack:disconnect-from-callback', 'still connected / callbacks left')
+            return None
+        e2 = 'e0' if action == 'emit-same' else 'e1'
+        pk2 = [p for p in w.take(e2) if not isinstance(p, tuple) and p.packet_type == packet.EVENT]
+        if len(pk2) != 1 or pk2[0].id is None or (action == 'emit-same' and pk2[0].id == pk[0].id):
+            return Fail('ack:chained-emit-shape', repr([worlds.pk(p) for p in pk2]))
+        w.send(e2, w.P(packet.ACK, data=[7], namespace=ns, id=pk2[0].id))
+        w.finish()
+        if not (fired == [('cb1', (x,)), ('cb2', (7,))]):
+            return Fail('ack:chained-callback', repr(fired))
+        return None
+    finally:
+        if old is not None:
+            signal.setitimer(signal.ITIMER_REAL, 0)
+            signal.signal(signal.SIGALRM, old)
+
+
 NOPS = 4 + 12 + 2 + 2 + 2
 
 
@@ -389,6 +465,9 @@ CHECKS = [
     dict(name='call-threaded', fn=h_call_sync, parts=[{}], budget={'quick': 180, 'thorough': 120}),
     dict(name='call-asyncio', fn=h_call_async, parts=[{}], budget={'quick': 180, 'thorough': 120}),
     dict(name='call-early-ack', fn=h_call_early, parts=[{}], budget={'quick': 180, 'thorough': 120}),
+    dict(name='callback-uses-server', fn=h_chain,
+         parts=[{'async': a, 'action': x} for a in (False, True) for x in ('emit-same', 'emit-other', 'disconnect')],
+         budget={'quick': 60, 'thorough': 60}),
 ]
 
 META = dict(
@@ -399,7 +478,7 @@ META = dict(
                      'namespaces; ACK arguments 0..2 symbolic ints; at most one callback invocation raises (symbolic index); then '
                      'one emit-with-callback to every live client and an acknowledgement of every callback still outstanding; '
                      'call(): one call with up to 2 environment actions during the wait (ACK with 0..2 args, '
-                     'DISCONNECT, foreign ACK, another emit with a callback to the same client - acknowledged after the call has ended -, nothing); asyncio: all miniloop schedules of caller || peer',
+                     'DISCONNECT, foreign ACK, another emit with a callback to the same client - acknowledged after the call has ended -, nothing); asyncio: all miniloop schedules of caller || peer; a callback that itself emits with a callback (to the same or another client) or disconnects the client, under a 10 s watchdog',
             'thorough': 'same with histories of 4 operations'},
     outside=['callbacks on multi-recipient emits (documented unsupported)', 'more than one raising callback', 'ids above 4 other than 10^20',
              'payload shapes (C02)'],
